@@ -4887,9 +4887,17 @@ def type_script_repr(type_,imports,prefix,settings):
         imports.append('import %s'%module)
     return module+'.'+type_.__name__
 
+def float_script_repr(value,imports,prefix,settings):
+    rep = repr(value)
+    if rep in ('inf', '-inf', 'nan'):
+        # non-finite floats have no literal: their repr is a bare name
+        rep = 'float(%r)' % rep
+    return rep
+
 script_repr_reg[list] = container_script_repr
 script_repr_reg[tuple] = container_script_repr
 script_repr_reg[FunctionType] = function_script_repr
+script_repr_reg[float] = float_script_repr
 
 
 #: If not None, the value of this Parameter will be called (using '()')
